@@ -68,7 +68,8 @@ Definition observe (r : sked O * ending) : obs :=
   {| ob_trace := filter observable (rev (trace w));
      ob_vars := vars w;
      ob_status := map (fun s => status_n (Some (st s))) (tss w);
-     ob_excn := match snd r with EndExcn => true | _ => false end |}.
+     ob_excn := match snd r with EndExcn => true | _ => false end
+                || match crashed w with Some _ => true | None => false end  (* raised inside the final sweep *) |}.
 
 Definition obs_eqb (a b : obs) : bool :=
   evl_eqb (ob_trace a) (ob_trace b) && zl_eqb (ob_vars a) (ob_vars b)
